@@ -12,6 +12,7 @@ from yk import session  # noqa: E402
 names = set()
 closures = {}
 decomps = {}
+ref_locals = {}
 from yk import inline  # noqa: E402
 for cfg in ('pinned', 'debug', 'guard_off'):
     try:
@@ -27,6 +28,10 @@ for cfg in ('pinned', 'debug', 'guard_off'):
         for n in r.get('elems', {}).values():
             if n.get('k') == 'DeclStmt':
                 for v in n.get('vars', []):
+                    ty_ = (v.get('type') or '').rstrip()
+                    if not v.get('bindings') and ty_.endswith('&') and not ty_.endswith('&&') and v.get('name') and \
+                            v['name'] not in ref_locals.setdefault(r.get('qname'), []):
+                        ref_locals[r['qname']].append(v['name'])
                     if v.get('bindings') and '&' not in (v.get('type') or ''):
                         nm = ','.join(b['name'] for b in v['bindings'])
                         if nm not in decomps.setdefault(r.get('qname'), []):
@@ -35,5 +40,5 @@ for cfg in ('pinned', 'debug', 'guard_off'):
         if vn not in closures.setdefault(q, []):
             closures[q].append(vn)
 rev = os.popen('git -C /repo rev-parse HEAD').read().strip()
-json.dump({'revision': rev, 'functions': sorted(names), 'closures': {k: sorted(v) for k, v in sorted(closures.items())}, 'decompositions': {k: sorted(v) for k, v in sorted(decomps.items())}}, open(os.path.join(HERE, 'baseline_functions.json'), 'w'), indent=0)
+json.dump({'revision': rev, 'functions': sorted(names), 'closures': {k: sorted(v) for k, v in sorted(closures.items())}, 'decompositions': {k: sorted(v) for k, v in sorted(decomps.items())}, 'ref_locals': {k: sorted(v) for k, v in sorted(ref_locals.items()) if v}}, open(os.path.join(HERE, 'baseline_functions.json'), 'w'), indent=0)
 print('%d functions at %s' % (len(names), rev[:7]))
